@@ -86,7 +86,11 @@ class Impl(object):
         if k == 'e':
             return self.I[v[1]]
         if k == 'p':
-            return getattr(self.I[v[1]], v[2])
+            # getattr(owner, name); name may be a dotted chain (owner.pid.pid_5): oracle-only histories
+            t = self.I[v[1]]
+            for n in v[2].split('.'):
+                t = getattr(t, n)
+            return t
         if k == 'd':
             return self.dt_obj(v[1], v[2], lvl)
         raise ValueError(v)
@@ -135,6 +139,7 @@ class Impl(object):
         elif k == 'newmsg':
             kw = {}
             if len(op) > 3 and op[3]:
+                self.ec = None                # every element is encoded with the delimiters of its own message
                 f, c, r, e, sc = op[3]
                 kw['encoding_chars'] = {'FIELD': f, 'COMPONENT': c, 'REPETITION': r, 'ESCAPE': e, 'SUBCOMPONENT': sc,
                                         'SEGMENT': '\r', 'GROUP': '\r'}
@@ -143,6 +148,16 @@ class Impl(object):
             I.append(m)
         elif k == 'removebyname':
             I[op[1]].children.remove_by_name(op[2], op[3])
+        elif k == 'addhelperchain':
+            # h = x.n1...nk.add_<child>(name): the helper called on whatever the chain resolves to (outside the model)
+            t = self.chain(op[1], op[2])
+            f = {'Segment': 'add_field', 'Field': 'add_component', 'Component': 'add_subcomponent',
+                 'Message': 'add_segment', 'Group': 'add_segment'}[t.classname if hasattr(t, 'classname') else t[0].classname]
+            I.append(getattr(t, f)(op[3]))
+        elif k == 'newchild':
+            # Field / Component / SubComponent(name, datatype=..., parent=x): construction with a parent (outside the model)
+            cls = {'Segment': Field, 'Field': Component, 'Component': SubComponent}[I[op[1]].classname]
+            I.append(cls(op[2], datatype=op[3], parent=I[op[1]], version=self.v, validation_level=I[op[1]].validation_level))
         elif k == 'setvaluenone':
             t = self.chain(op[1], op[2])
             t.value = None
@@ -368,6 +383,9 @@ class Gen(object):
         self.obs = []
         self.codes = []
         self.segname = rng.choice(self.SEGMENTS.get(version, ['PID', 'OBX', 'ZXX']))
+        if profile == 'open':
+            # segments that take fields beyond their structure: Z-segments and (2.5) the query segment QPD
+            self.segname = rng.choice(['ZXX', 'ZIN'] + (['QPD'] if 'QPD' in self.impl.lib.SEGMENTS else []))
         self.pool = {}
         self.pending = []
 
@@ -399,7 +417,7 @@ class Gen(object):
                 out = [rows[i] for i in sorted(pick)]
             if x.allow_infinite_children:
                 n = x._last_allowed_child_index
-                for i in (n + 1, n + 3):
+                for i in ((n + 1, n + 2, n + 3, n + 5) if self.profile == 'open' else (n + 1, n + 3)):
                     nm = '%s_%d' % (x.name, i)
                     dt = 'ST' if x.name.startswith('Z') else 'varies'
                     out.append((nm, ('leaf', None, dt, None, None, -1), None))
@@ -437,6 +455,9 @@ class Gen(object):
         return nm.lower()
 
     def bad_name(self, x):
+        if x.classname == 'Segment' and x.name and self.rng.random() < .35:
+            # positions that are not plainly written numbers starting at 1 name no child (fix f798674)
+            return '%s_%s' % (x.name.lower(), self.rng.choice(['0', '07', '-1', '01', '1x', '+2']))
         return self.rng.choice(['msh_3', 'foo', 'evn_1', 'cx_1', 'hd_2', 'zzz_1', 'pid_99', 'xpn_77', 'pid_3_99', 'si'])
 
     def text_for(self, row, depth, lvl):
@@ -518,8 +539,28 @@ class Gen(object):
                     self.pending.append(['setindex', x, [nm], k2, ['t', txt]])
                 else:
                     self.pending.append(['removebyname', x, nm.upper() if rng.random() < .7 else nm, k2])
+            elif rng.random() < .35:
+                # ... or through .value: the read-created element is promoted by the proxy
+                self.pending.append(['setvaluechain', x, names[:cut], txt.replace('^', '')])
             else:
                 self.pending.append(['setattr', x, names[:cut], ['t', txt]])
+        elif ((op[0] == 'setattr' and op[3][0] == 't') or op[0] == 'setvaluechain') and rng.random() < .4 \
+                and (len(op[2]) >= 2 or op[0] == 'setvaluechain'):
+            # a write through a chain, then the whole-element assignment / deletion of an element of that chain:
+            # what the write created is an ordinary child (replaced in place, deleted)
+            names = op[2]
+            x = op[1]
+            X = self.impl.I[x]
+            top = len(names) - 1 if op[0] == 'setattr' else len(names)
+            cut = rng.randint(1, max(1, top))
+            txt = '2020' if X.validation_level == STRICT else rng.choice(['B', 'w'])
+            r = rng.random()
+            if r < .55:
+                self.pending.append(['setattr', x, names[:cut], ['t', txt]])
+            elif r < .8:
+                self.pending.append(['delattr', x, names[:cut]])
+            else:
+                self.pending.append(['delindex', x, names[:cut], 0])
         return op
 
     def gen_op_(self):
@@ -687,6 +728,12 @@ class Gen(object):
             ref = cur_row[1]
             if ref[0] != 'sequence' or not ref[1]:
                 dt = ref[2] if len(ref) > 2 else None
+                if dt == 'varies' and depth == 0:
+                    n = rng.choice([1, 2, 2])
+                    names.append('varies_%d' % n)
+                    cur_row = ('VARIES_%d' % n, ('leaf', None, 'varies', None, None, -1), None)
+                    depth += 1
+                    break
                 if dt is None or dt == 'varies':
                     break
                 sub = (dt, ('leaf', None, dt, None, None, -1), None)
@@ -770,11 +817,21 @@ class MsgGen(object):
         op = self.pending.pop(0)
         return op(self) if callable(op) else op
 
-    def delim(self, text):
-        """rewrite a text written with the default delimiters into the delimiters of this history"""
-        if not self.ecs:
+    def delim(self, text, x=None):
+        """rewrite a text written with the default delimiters into the delimiters of this history (of the message
+        the element x belongs to, when given)"""
+        ecs = self.ecs
+        if x is not None:
+            try:
+                ec = x.encoding_chars
+                ecs = ec['FIELD'] + ec['COMPONENT'] + ec['REPETITION'] + ec['ESCAPE'] + ec['SUBCOMPONENT']
+                if ecs == '|^~\\&':
+                    ecs = None
+            except Exception:  # noqa
+                pass
+        if not ecs:
             return text
-        f, c, r, e, sc = self.ecs
+        f, c, r, e, sc = ecs
         return text.translate({ord('|'): f, ord('^'): c, ord('~'): r, ord('\\'): e, ord('&'): sc})
 
     def rows(self, x):
@@ -785,10 +842,10 @@ class MsgGen(object):
                 out.append((k, sbn[k]['cls'].__name__, sbn[k]['ref']))
         return out
 
-    def seg_text(self, name, n):
+    def seg_text(self, name, n, x=None):
         if name == 'MSH':
             return None
-        return self.delim(self.rng.choice(['%s|%d', '%s|%d||x^y', '%s|%d|a&b^c']) % (name, n))
+        return self.delim(self.rng.choice(['%s|%d', '%s|%d||x^y', '%s|%d|a&b^c']) % (name, n), x)
 
     def group_text(self, x, gname, gref):
         """ER7 of a few leading segments of a group"""
@@ -796,9 +853,9 @@ class MsgGen(object):
         segs = []
         for row in gref[1][:3]:
             if row[3] == 'SEG' and rng.random() < .8:
-                segs.append(self.delim('%s|%d' % (row[0], rng.randint(1, 9))))
+                segs.append(self.delim(rng.choice(['%s|%d', '%s|%d', '%s|%d||a&b^c']) % (row[0], rng.randint(1, 9)), x))
         if not segs:
-            segs = [self.delim('%s|1' % gref[1][0][0])] if gref[1][0][3] == 'SEG' else []
+            segs = [self.delim('%s|1' % gref[1][0][0], x)] if gref[1][0][3] == 'SEG' else []
         return '\r'.join(segs)
 
     def gen_op(self):
@@ -808,7 +865,12 @@ class MsgGen(object):
         I = self.impl.I
         msgs = [i for i, y in enumerate(I) if isinstance(y, Message)]
         if not msgs or (len(msgs) < 2 and rng.random() < .25):
-            return ['newmsg', self.lvl, self.struct, self.ecs]
+            ecs = self.ecs
+            if msgs and rng.random() < .5:
+                # a second message with OTHER delimiters: copies between the two are by value
+                ecs = rng.choice([e for e in (None, '#$*!@', ';:+?%') if e != self.ecs])
+                self.impl.ec = None
+            return ['newmsg', self.lvl, self.struct, ecs]
         tops = [i for i, y in enumerate(I) if isinstance(y, (Message, Group))]
         x = rng.choice(tops) if rng.random() < .3 else rng.choice(msgs)
         X = I[x]
@@ -825,11 +887,14 @@ class MsgGen(object):
         i = rng.randrange(0, n_have) if n_have and rng.random() < .7 else rng.choice([n_have, n_have + 1, 0])
         if n_have and rng.random() < .2:
             i = -rng.randint(1, n_have + 1)
-        text = self.seg_text(name, rng.randint(1, 9)) if cls == 'Segment' else self.group_text(X, name, ref)
+        text = self.seg_text(name, rng.randint(1, 9), X) if cls == 'Segment' else self.group_text(X, name, ref)
         kind = rng.choices(['set', 'setidx', 'addhelper', 'del', 'delidx', 'copy', 'setel', 'chain', 'readchain', 'grab',
                             'len', 'wrong', 'value', 'placeholder', 'rmname'],
                            [16, 8, 7, 5, 4, 7, 4, 10, 10, 5, 3, 3, 9, 6, 3])[0]
         nl = name.lower()
+        if len(msgs) >= 2 and rng.random() < .12 and \
+                any(I[j].encoding_chars != I[msgs[0]].encoding_chars for j in msgs[1:]):
+            kind = 'copy'               # two messages with different delimiters: copies between them
         if kind == 'value' and text:
             # parent.child.value = text: replaces the content of the first repetition, or appends when absent
             return ['setvaluechain', x, [nl], text]
@@ -844,7 +909,7 @@ class MsgGen(object):
                 self.pending.append(lambda g, n=n: ['setattr', last(g), ['%s_1' % nl], ['t', str(n)]])
             k2 = -rng.randint(1, 2)
             if rng.random() < .6:
-                self.pending.append(['setindex', x, [nl], k2, ['t', self.delim('%s|3' % name)]])
+                self.pending.append(['setindex', x, [nl], k2, ['t', self.delim('%s|3' % name, X)]])
             else:
                 self.pending.append(['removebyname', x, name, k2])
             return ['readvalue', x, [nl, '%s_1' % nl]]
@@ -860,7 +925,14 @@ class MsgGen(object):
             return ['delindex', x, [nl], i]
         if kind == 'copy':
             others = [j for j in tops if type(I[j]) is type(X)]
-            return ['setattr', x, [nl], ['p', rng.choice(others), nl]]
+            o = rng.choice(others)
+            if cls == 'Segment' and rng.random() < .5:
+                # a field of a segment of another message / group of the same kind: x.seg.seg_n = o.seg.seg_n, the
+                # source filled first
+                fld = '%s_%d' % (nl, rng.choice([2, 3, 5]))
+                self.pending.append(['setattr', x, [nl, fld], ['p', o, '%s.%s' % (nl, fld)]])
+                return ['setattr', o, [nl, fld], ['t', self.delim(rng.choice(['SMITH^JOHN', 'a&b^c', 'q']), I[o])]]
+            return ['setattr', x, [nl], ['p', o, nl]]
         if kind == 'setel' and cls == 'Segment':
             segs = [j for j, y in enumerate(I) if isinstance(y, Segment) and y.name == name]
             if segs:
@@ -872,7 +944,7 @@ class MsgGen(object):
         if kind == 'len':
             return ['len', x, [nl]]
         if kind == 'wrong' and text:
-            return ['setattr', x, [nl], ['t', self.delim('EVN|9')]]
+            return ['setattr', x, [nl], ['t', self.delim('EVN|9', X)]]
         # chains below a segment or a group: read lazily, write, or read and then write (to the end of the
         # chain or to an element in the middle of it)
         if cls == 'Segment':
@@ -883,7 +955,7 @@ class MsgGen(object):
                 return ['len', x, [nl]]
             sname = rng.choice(inner[:3])[0].lower()
             names = [nl, sname, '%s_%d' % (sname, rng.choice([1, 2, 3]))]
-        txt = '2020' if self.lvl == STRICT else self.delim(rng.choice(['w', 'EVERYMAN^ADAM', '7']))
+        txt = '2020' if self.lvl == STRICT else self.delim(rng.choice(['w', 'EVERYMAN^ADAM', '7']), X)
         if kind == 'chain' and rng.random() < .4:
             return ['setvaluechain', x, names, txt]
         if kind == 'readchain':
@@ -893,7 +965,7 @@ class MsgGen(object):
                     self.pending.append(['setattr', x, names[:cut], ['t', txt]])
                 else:
                     # assign a whole segment to the intermediate link
-                    self.pending.append(['setattr', x, names[:cut], ['t', self.delim('%s|3' % names[cut - 1].upper())]])
+                    self.pending.append(['setattr', x, names[:cut], ['t', self.delim('%s|3' % names[cut - 1].upper(), X)]])
             return ['readvalue', x, names]
         return ['setattr', x, names, ['t', txt]]
 
